@@ -34,7 +34,8 @@ LEVEL_TEXT = ('Theorems for every grid (any bbox, tile size, positive resolution
               'for the integer helpers, by definitions generated from the source and proved equal to the model.')
 LEVEL_NOTE = ('Trusted: Coq kernel; hand-written model Grid.v; translator spec grid_int.py; the correspondence harness. IEEE-754 '
               'rounding of grid.py is not modelled: the exact stream (integer parameters) must agree bit for bit, on the realistic '
-              'stream and for +-1 ulp queries the oracle allows 1e-9 tile units. threshold_res and string level names are not modelled.')
+              'stream and for +-1 ulp queries the oracle allows 1e-9 tile units. threshold_res is modelled (closest_level_thr) with a partial '
+              'specification theorem (single threshold); string level names are not modelled.')
 DESIGN_REF = 'DESIGN.md section 5, C03'
 RULE = ('case = (grid, API function, arguments); non-trivial = query on / next to / away from a tile edge or level boundary '
         'on a grid whose extent is not a multiple of the tile span or has a custom resolution list; distinct by full tuple')
@@ -44,7 +45,8 @@ TRUSTED = ['model Grid.v hand-written from mapproxy/grid.py; tie = differential 
            'float rounding of grid.py not modelled (exact stream bit-exact, realistic stream tolerance 1e-9 relative)']
 ASSUMPTIONS = ['resolutions positive (closest_level: strictly decreasing, stretch_factor >= 1), bbox non-degenerate, tile size positive',
                'numerically meaningful range: resolution >= 1e-9 of the coordinate magnitude',
-               'integer level indices (string level names of limit_tile not modelled); threshold_res = None']
+               'integer level indices (string level names of limit_tile not modelled)',
+               'closest_level_spec: threshold_res = None; with thresholds only closest_level_thr_switch_partial is proved']
 EXPLANATION = 'grid arithmetic proved over Z for all grids; implementation compared on exact and realistic streams'
 GEN = ['Gen_grid_int.v']
 CORPUS = os.path.join(os.path.dirname(os.path.dirname(os.path.dirname(os.path.abspath(__file__)))), 'corpus', 'C03')
@@ -119,6 +121,61 @@ def make_grids(ctx):
     for mk in real:
         add(mk(), 'real')
     return grids
+
+
+def make_alignment_grids(ctx):
+    """Exact-stream grids whose levels are aligned / not aligned with the border opposite to the origin in a pattern
+    chosen independently per level (3-6 levels): supports_access_with_origin must look at every level, so any shortcut
+    over a subset of levels (first only, first and last, every other, ...) meets a grid where exactly the skipped level
+    is the unaligned one.  Height = th * 10 * M with M = 2520 * k; level resolution 10 * d is aligned iff d | M."""
+    from mapproxy.grid import TileGrid
+    from mapproxy.srs import SRS
+    rng = ctx.rng
+    srs = SRS(3857)
+    out = []
+    for i in range(ctx.n(30, 150)):
+        tw, th = rng.choice([(256, 256), (100, 100), (64, 128), (7, 5), (1, 1), (10, 10)])
+        M = 2520 * rng.choice([1, 1, 2, 3])
+        n = rng.randrange(3, 7)
+        tmpl = i % 6
+        if tmpl == 0:
+            flags = [True] * n
+            flags[rng.randrange(1, n - 1)] = False          # exactly one middle level unaligned
+        elif tmpl == 1:
+            flags = [True] * (n - 1) + [False]              # only the last
+        elif tmpl == 2:
+            flags = [False] + [True] * (n - 1)              # only the first
+        elif tmpl == 3:
+            flags = [True] * n                              # all aligned: the other origin is offered
+        elif tmpl == 4:
+            flags = [True] * n
+            flags[rng.randrange(0, n)] = False              # exactly one level, anywhere
+        else:
+            flags = [rng.random() < 0.6 for _ in range(n)]  # independent per level
+        ds = []
+        hi = M + 1
+        for f in flags:
+            lo = max(1, (hi - 1) // 4)
+            cand = [d for d in range(lo, hi) if (M % d == 0) == f]
+            if not cand:
+                break
+            d = rng.choice(cand)
+            ds.append(d)
+            hi = d
+        if len(ds) < 3:
+            continue
+        res = [float(10 * d) for d in ds]
+        x0 = rng.randrange(-5000, 5000)
+        y0 = rng.randrange(-5000, 5000)
+        w = rng.choice([res[0] * tw, res[0] * tw * 2 + 10 * rng.randrange(0, 50), 10 * rng.randrange(1, 5000)])
+        h = th * 10 * M
+        g = TileGrid(srs, bbox=(float(x0), float(y0), float(x0 + w), float(y0 + h)), tile_size=(tw, th), res=res,
+                     origin=rng.choice(['ll', 'ul']), stretch_factor=rng.choice([1.15, 1.25, 2.0]), max_shrink_factor=4.0)
+        gc = GridCase('a%d' % i, g, extra_den=8)
+        gc.kind = 'exact'
+        gc.align_flags = flags[:len(ds)]
+        out.append(gc)
+    return out
 
 
 # ----------------------------------------------------------------------------- helpers
@@ -206,7 +263,7 @@ class Run(object):
     def __init__(self, ctx):
         self.ctx = ctx
         self.T = {name: ([], []) for name in ('tile', 'tile_bbox', 'sizes', 'flip', 'limit', 'origin', 'affected', 'closest',
-                                              'afflevel', 'gen_flip', 'gen_limit', 'gen_list')}
+                                              'afflevel', 'gen_flip', 'gen_limit', 'gen_list', 'closest_thr')}
         self.skipped = 0
         self.tolerance_oracle = 0
 
@@ -478,7 +535,7 @@ def check_tile_coord(R, gc, tx, ty, l, lim):
         ctx.fail('flip-raises', 'flip_tile_coord raised %r' % (ft,), rep)
 
 
-def check_grid(R, gc):
+def check_grid(R, gc, all_levels=False):
     """grid sizes, supports_access_with_origin, origin_tile"""
     ctx, g, rng = R.ctx, gc.grid, R.ctx.rng
     nlev = len(gc.res)
@@ -512,7 +569,7 @@ def check_grid(R, gc):
                 ctx.fail('supports-origin', 'supports_access_with_origin(%s) = %r but alignment of all levels is %r' % (org, sup, aligned),
                          {'grid': gparams(g), 'query': {'fn': 'supports', 'origin': org}})
         if sup:
-            for l in level_sample(gc, rng, 2):
+            for l in (range(nlev) if all_levels else level_sample(gc, rng, 2)):
                 st, ot = call(g.origin_tile, l, org)
                 if st == 'ok':
                     R.add('origin', '(%s, %s, true, Some (%s, %s))' % (gc.name, blit(org == 'ul'), zlit(l), coord_lit(ot)),
@@ -573,6 +630,19 @@ def run(ctx):
     replay_corpus(R, grids)
     gen_grids = make_grids(ctx)
     grids += gen_grids
+    # --- alignment patterns: supports_access_with_origin / origin_tile / flip on every level (no point queries)
+    align_grids = make_alignment_grids(ctx)
+    grids += align_grids
+    for gc in align_grids:
+        ctx.count('alignment_pattern=' + ''.join('A' if f else 'u' for f in gc.align_flags))
+        check_grid(R, gc, all_levels=True)
+        # the generator's intent, independent of gridlib: level l aligned iff its flag
+        for l, f in enumerate(gc.align_flags):
+            if (gc.grid_size(l)[1] * gc.res[l] * gc.th == gc.bbox[3] - gc.bbox[1]) != f:
+                ctx.problem('harness', 'alignment grid %s: level %d does not have the intended alignment' % (gc.name, l))
+        for l in range(len(gc.res)):
+            nx, ny = gc.grid_size(l)
+            check_tile_coord(R, gc, rng.choice([0, nx - 1]), rng.choice([0, ny - 1, rng.randrange(0, ny)]), l, False)
 
     for gc in gen_grids:
         g = gc.grid
@@ -674,6 +744,9 @@ def run(ctx):
 
     # --- generated _create_tile_list against the Python generator, on arbitrary lists
     gen_list_cases(R)
+    # --- closest_level on grids with threshold_res
+    thr_grids = threshold_cases(R)
+    grids += thr_grids
 
     ctx.distribution['skipped_float_rounding_sensitive'] = R.skipped
     ctx.distribution['checked_by_tolerance_oracle_only'] = R.tolerance_oracle
@@ -707,6 +780,9 @@ def run(ctx):
     ctx.corr_check('closest_level', I, 'grid * Z * Z * Z', T['closest'][0],
                    "fun c => let '(g, rn, rd, obs) := c in closest_level g rn rd =? obs",
                    lambda i: T['closest'][1][i], defs=defs)
+    ctx.corr_check('closest_level_threshold_res', I, 'grid * list Z * Z * Z * Z', T['closest_thr'][0],
+                   "fun c => let '(g, ths, rn, rd, obs) := c in closest_level_thr g ths rn rd =? obs",
+                   lambda i: T['closest_thr'][1][i], defs=defs)
     ctx.corr_check('affected_level', I, 'grid * bbox * Z * Z * option Z', T['afflevel'][0],
                    "fun c => let '(g, b, sx, sy, obs) := c in "
                    "match affected_level g b sx sy, obs with Some a, Some b => a =? b | None, None => true | _, _ => false end",
@@ -726,6 +802,75 @@ def run(ctx):
     ctx.corr_check('gen_create_tile_list', IG, 'list Z * list Z * Z * (Z * Z) * list (option (Z * Z * Z))', T['gen_list'][0],
                    "fun c => let '(xs, ys, l, gs, obs) := c in ocoords_eqb (gen_create_tile_list xs ys l gs) obs",
                    lambda i: T['gen_list'][1][i])
+
+
+def threshold_cases(R):
+    """closest_level with threshold_res: exact-stream grids (resolutions multiples of 10, thresholds multiples of 1/8)
+    with thresholds between levels, on levels, above the first and below the last level; requested resolutions on and next
+    to thresholds and levels.  Oracle (single threshold between two levels): the level switches exactly at the threshold."""
+    from mapproxy.grid import TileGrid
+    from mapproxy.srs import SRS
+    ctx, rng = R.ctx, R.ctx.rng
+    out = []
+    for i in range(ctx.n(16, 80)):
+        res = sorted({10 * rng.randrange(1, 300) for _ in range(rng.randrange(2, 8))}, reverse=True)
+        if len(res) < 2:
+            continue
+        res = [float(r) for r in res]
+        nthr = rng.choice([1, 1, 1, 1, 2, 3, 4])
+        thr = set()
+        for _ in range(nthr):
+            k = rng.randrange(1, len(res))
+            lo, hi = res[k], res[k - 1]
+            thr.add(rng.choice([lo, lo + 0.125, (lo + hi) / 2.0, hi - 0.125, math.floor((lo + (hi - lo) * rng.random()) * 8) / 8.0,
+                                res[0] + 5.0, res[0] * 3, res[-1] / 2.0, hi]))
+        thr = sorted(thr)
+        sf = rng.choice([1.0, 1.125, 1.25, 1.5, 2.0, 1.15])
+        g = TileGrid(SRS(3857), bbox=(0.0, 0.0, res[0] * 256 * 2, res[0] * 256), tile_size=(256, 256), res=res,
+                     threshold_res=list(thr), stretch_factor=sf)
+        gc = GridCase('t%d' % i, g, extra_den=8)
+        gc.kind = 'exact'
+        gc.obs_sizes = [tuple(g.grid_sizes[l]) for l in range(len(res))]
+        out.append(gc)
+        ths = list(g.threshold_res or [])
+        ctx.count('threshold_grid:%d_thresholds' % len(ths))
+        must = []
+        for v in ths:
+            must += [v, v + 0.125, v - 0.125]
+        cand = []
+        for v in ths + res:
+            cand += [math.nextafter(v, math.inf), math.nextafter(v, 0.0), v / sf, v * 1.1, v * 0.9]
+        for v in res:
+            cand += [v, v + 0.125, v - 0.125]
+        cand += [res[0] * 4, res[-1] / 3.0]
+        rng.shuffle(cand)
+        for q in must + cand[:ctx.n(10, 24)]:
+            if q <= 0:
+                continue
+            st, lv = call(g.closest_level, q)
+            fq = frac(q)
+            rep = {'grid': dict(gparams(g), threshold_res=ths), 'query': {'fn': 'closest', 'res': q}, 'result': lv}
+            ctx.case(('closest_thr', gc.name, q), True)
+            if st != 'ok':
+                ctx.fail('closest-raises', 'closest_level raised %r' % (lv,), rep)
+                continue
+            # oracle: one threshold t with r_(k-1) > t >= r_k and a request r_k <= res < r_(k-1): level k-1 iff res > t
+            if len(ths) == 1:
+                t = frac(ths[0])
+                ks = [k for k in range(1, len(res)) if gc.res[k - 1] > t >= gc.res[k]]
+                if ks and gc.res[ks[0]] <= fq < gc.res[ks[0] - 1]:
+                    want = ks[0] - 1 if fq > t else ks[0]
+                    if lv != want:
+                        ctx.fail('closest_level-threshold', 'closest_level(%r) = %r with threshold %r, the switch rule says %r' % (
+                            q, lv, ths[0], want), dict(rep, expected=want))
+            if closest_ambiguous(gc, q):
+                R.skipped += 1
+                continue
+            sq = fq * gc.S
+            R.add('closest_thr', '(%s, %s, %s, %s, %s)' % (gc.name, llit([gc.z(t) for t in ths]), zlit(sq.numerator),
+                                                       zlit(sq.denominator), zlit(lv)),
+                  {'grid': repr(g), 'resolutions': res, 'threshold_res': ths, 'stretch': sf, 'res': q, 'level': lv})
+    return out
 
 
 def gen_list_cases(R):
